@@ -64,13 +64,127 @@ def pagesOfKids (ps : Nat) : List (Bytes × N) → List (Nat × Nat × Nat)
   | (_, c) :: r => pagesOf ps c ++ pagesOfKids ps r
 end
 
+/-- the span `node.spill` allocates holds the node -/
+theorem size_le_span (ps : Nat) (n : N) (hps : 0 < ps) : n.size ≤ (ovfOf ps n + 1) * ps := by
+  unfold ovfOf
+  have h16 : 16 ≤ n.size := by unfold N.size; rw [C12Node.nodeSize_sum]; omega
+  have h1 : 1 ≤ (n.size + ps - 1) / ps := by
+    rw [Nat.le_div_iff_mul_le hps]; omega
+  have := C12Node.allocated_pages_suffice n.size ps hps
+  rw [Nat.sub_add_cancel h1]; exact this
+
+theorem fits_pgid (ps hwm : Nat) : ∀ (c : N), Fits ps hwm c → c.hd.pgid < 2^64
+  | .leaf h items, hf => by rw [Fits] at hf; simp only [N.hd]; omega
+  | .branch h kids, hf => by rw [Fits] at hf; simp only [N.hd]; omega
+
+theorem fitsKids_pgid (ps hwm : Nat) : ∀ (kids : List (Bytes × N)), FitsKids ps hwm kids →
+    ∀ p ∈ kids, p.2.hd.pgid < 2^64
+  | [], _, p, hp => by cases hp
+  | (s, c) :: r, hf, p, hp => by
+    rw [FitsKids] at hf
+    rcases List.mem_cons.mp hp with rfl | hp
+    · exact fits_pgid ps hwm _ hf.1
+    · exact fitsKids_pgid ps hwm r hf.2 p hp
+
+open Bolt.FormatTreeL Bolt.BTree.OpsL in
+mutual
+/-- the reader on any node of a committed tree (root or not) -/
+theorem decode_node (f : File) (ps hwm : Nat) (hps : 0 < ps) :
+    ∀ (t : N) (root : Bool) (fuel : Nat) (ph : Phys),
+    Laid f ps t → Fits ps hwm t → committedN root t = true → SortedI (flatten t) → depth t ≤ fuel →
+    decodeTree f ps hwm fuel t.hd.pgid ph =
+      ((flatten t).map (fun i => (i.key, SVal.val i.val)),
+       { pages := ph.pages ++ pagesOf ps t, errors := ph.errors })
+  | .leaf h items, root, fuel, ph, hl, hf, hc, hs, hd => by
+    rw [Laid] at hl; rw [Fits] at hf
+    obtain ⟨f1, f2, f3, f4, f5, f6⟩ := hf
+    obtain ⟨c1, c2, c3, c4, c5⟩ := (committedN_leaf ..).mp hc
+    rw [flatten_leaf]
+    rw [depth_leaf] at hd
+    obtain ⟨fuel', rfl⟩ : ∃ k, fuel = k + 1 := ⟨fuel - 1, by omega⟩
+    have := decodeTree_leaf f ps hwm fuel' h.pgid (ovfOf ps (.leaf h items)) ph
+      (items.map C12Node.toLeafElem) hps hl f1 f2 f3 (by simpa using f4) f5
+      (by rw [C12Node.leaf_bytes_eq_size h]; exact size_le_span ps _ hps)
+      (by intro e he; obtain ⟨i, hi, rfl⟩ := List.mem_map.mp he; exact f6 i hi)
+      (by rw [List.map_map]; exact (sortedKeys_items items).mpr c4)
+      (by intro e he; obtain ⟨i, hi, rfl⟩ := List.mem_map.mp he; exact c5 i hi)
+    rw [pagesOf]
+    simpa only [N.hd, List.map_map, C12Node.toLeafElem, Function.comp_def] using this
+  | .branch h kids, root, fuel, ph, hl, hf, hc, hs, hd => by
+    rw [Laid] at hl; rw [Fits] at hf
+    obtain ⟨hl1, hl2⟩ := hl
+    obtain ⟨f1, f2, f3, f4, f5, f6⟩ := hf
+    obtain ⟨c1, c2, c3, c4, c5⟩ := (committedN_branch ..).mp hc
+    rw [flatten_branch] at hs ⊢
+    rw [depth_branch] at hd
+    obtain ⟨fuel', rfl⟩ : ∃ k, fuel = k + 1 := ⟨fuel - 1, by omega⟩
+    have hstep := decodeTree_branch f ps hwm fuel' h.pgid (ovfOf ps (.branch h kids)) ph
+      (kids.map (fun (p : Bytes × N) => ({ key := p.1, pgid := p.2.hd.pgid } : BranchElem))) hps hl1 f1 f2 f3
+      (by simpa using f4) f5
+      (by rw [C12Node.branch_bytes_eq_size h kids (fun c => c.hd.pgid)]; exact size_le_span ps _ hps)
+      (by intro e he; obtain ⟨p, hp, rfl⟩ := List.mem_map.mp he; exact fitsKids_pgid ps hwm kids f6 p hp)
+      (by rw [List.map_map]; exact (sortedKeys_kids kids).mpr c4)
+      (by intro e; rw [List.map_eq_nil_iff] at e; rw [e] at c3; simp at c3)
+    have hk := decode_kids f ps hwm hps kids _ fuel'
+      { pages := ph.pages ++ [(h.pgid, ovfOf ps (.branch h kids), V2.branchPageFlag)], errors := ph.errors }
+      hl2 f6 c5 hs (by omega)
+    rw [pagesOf]
+    show decodeTree f ps hwm (fuel' + 1) h.pgid ph = _
+    rw [hstep, hk]
+    simp only [List.append_assoc, List.singleton_append]
+/-- the reader on the children of a branch of a committed tree -/
+theorem decode_kids (f : File) (ps hwm : Nat) (hps : 0 < ps) :
+    ∀ (kids : List (Bytes × N)) (d fuel : Nat) (ph : Phys),
+    LaidKids f ps kids → FitsKids ps hwm kids → committedKids kids d = true →
+    SortedI (flattenKids kids) → depthKids kids ≤ fuel →
+    decodeKids f ps hwm fuel
+        (kids.map (fun p => ({ key := p.1, pgid := p.2.hd.pgid } : BranchElem))) ph =
+      ((flattenKids kids).map (fun i => (i.key, SVal.val i.val)),
+       { pages := ph.pages ++ pagesOfKids ps kids, errors := ph.errors })
+  | [], d, fuel, ph, _, _, _, _, _ => by
+    rw [flattenKids_nil, pagesOfKids, List.map_nil, decodeKids_nil]
+    simp
+  | (s, c) :: r, d, fuel, ph, hl, hf, hc, hs, hd => by
+    rw [LaidKids] at hl; rw [FitsKids] at hf
+    obtain ⟨h1, h2, h3, h4⟩ := (committedKids_cons ..).mp hc
+    rw [flattenKids_cons] at hs ⊢
+    obtain ⟨hs1, hs2, hs3⟩ := List.pairwise_append.mp hs
+    rw [depthKids_cons] at hd
+    have hc' := decode_node f ps hwm hps c false fuel ph hl.1 hf.1 h3 hs1 (by omega)
+    have hr := decode_kids f ps hwm hps r d fuel
+      { pages := ph.pages ++ pagesOf ps c, errors := ph.errors } hl.2 hf.2 h4 hs2 (by omega)
+    rw [List.map_cons, decodeKids_cons f ps hwm fuel _ _ ph _ _ hc' ?first ?next, hr, pagesOfKids]
+    · simp only [List.map_append, List.append_assoc]
+    case first =>
+      obtain ⟨x, rest, e1, e2⟩ := committedN_head c h3
+      intro kv hkv
+      rw [e1] at hkv
+      simp only [List.map_cons, List.head?_cons, Option.mem_def, Option.some.injEq] at hkv
+      subst hkv
+      show Bytes.lt x.key s = false
+      rw [e2, ← h1]; exact Bytes.lt_irrefl s
+    case next =>
+      intro nxt hn kv hkv
+      cases r with
+      | nil => simp at hn
+      | cons q r' =>
+        obtain ⟨y, rest, e1, e2⟩ := committedKids_head (q :: r') d (by simp) h4
+        simp only [List.head?_cons, Option.map_some, Option.getD_some] at e2
+        simp only [List.map_cons, List.head?_cons, Option.mem_def, Option.some.injEq] at hn
+        subst hn
+        obtain ⟨x, hx, rfl⟩ := List.mem_map.mp hkv
+        show Bytes.lt x.key q.1 = true
+        rw [← e2]
+        exact hs3 x hx y (by rw [e1]; simp)
+end
+
 /-- **the reader returns the tree**: content in order, no error, exactly the tree's pages -/
 theorem decode_laid (f : File) (ps hwm fuel : Nat) (t : N) (ph : Phys)
     (hps : 0 < ps) (hl : Laid f ps t) (hf : Fits ps hwm t) (hc : Committed t) (hd : depth t ≤ fuel) :
     decodeTree f ps hwm fuel t.hd.pgid ph =
       ((flatten t).map (fun i => (i.key, SVal.val i.val)),
-       { pages := ph.pages ++ pagesOf ps t, errors := ph.errors }) := by
-  sorry
+       { pages := ph.pages ++ pagesOf ps t, errors := ph.errors }) :=
+  decode_node f ps hwm hps t true fuel ph hl hf hc.1 ((Bolt.BTree.OpsL.sortedKeys_items _).mp hc.2) hd
 
 /-- corollary: what the reader extracts is the abstraction of the tree as the reference model
     sees a bucket with these entries -/
@@ -78,6 +192,7 @@ theorem decode_laid_content (f : File) (ps hwm fuel : Nat) (t : N)
     (hps : 0 < ps) (hl : Laid f ps t) (hf : Fits ps hwm t) (hc : Committed t) (hd : depth t ≤ fuel) :
     (decodeTree f ps hwm fuel t.hd.pgid Phys.empty).1 = (flatten t).map (fun i => (i.key, SVal.val i.val)) ∧
     (decodeTree f ps hwm fuel t.hd.pgid Phys.empty).2.errors = [] := by
-  sorry
+  rw [decode_laid f ps hwm fuel t Phys.empty hps hl hf hc hd]
+  exact ⟨rfl, rfl⟩
 
 end Bolt.C12Tree
